@@ -367,6 +367,13 @@ class Scenario(object):
                 key = 'p%d_%d' % (i, w.fresh)
                 w.cids[key] = cid
                 w.m.insert(i, dict(key=key, label=cid.label, kind='pixel', deps=[]))
+            # where the re-created pixel attributes are listed relative to the others is not specified:
+            # the model adopts the real position of every record for this step (set equality, uniqueness,
+            # shapes, pixel/world counts and lookup are still checked; the order is compared again afterwards)
+            pos = {}
+            for i, c in enumerate(d.components):
+                pos[w.keyof(c)] = i
+            w.m.sort(key=lambda r: pos.get(r['key'], 10 ** 6))
 
     # -- oracle ------------------------------------------------------------------------
     def check(self, w):
@@ -449,16 +456,16 @@ class Scenario(object):
 
 def tiers(tier):
     if tier == 'quick':
-        return [('hub', Scenario(hub=True), 5), ('nohub', Scenario(hub=False, dup_label=False), 5),
-                ('hub-norefresh', Scenario(hub=True, refresh=(), dup_label=False), 6),
-                ('hub-2d', Scenario(hub=True, dup_label=False, shape=(2, 2)), 5),
-                ('in-collection', Scenario(hub=True, dup_label=False, collection=True), 5),
-                ('hub-3d-coords', Scenario(hub=True, dup_label=False, refresh=('same',), shape=(2, 1, 2)), 5)]
-    return [('hub', Scenario(hub=True), 5), ('nohub', Scenario(hub=False), 5),
+        return [('hub', Scenario(hub=True), 4), ('nohub', Scenario(hub=False, dup_label=False), 3),
+                ('hub-norefresh', Scenario(hub=True, refresh=(), dup_label=False), 5),
+                ('hub-2d', Scenario(hub=True, dup_label=False, shape=(2, 2)), 4),
+                ('in-collection', Scenario(hub=True, dup_label=False, collection=True), 3),
+                ('hub-3d-coords', Scenario(hub=True, dup_label=False, refresh=('same',), shape=(2, 1, 2)), 4)]
+    return [('hub', Scenario(hub=True), 5), ('nohub', Scenario(hub=False), 4),
             ('hub-norefresh', Scenario(hub=True, refresh=()), 6),
-            ('in-collection', Scenario(hub=True, collection=True), 5),
-            ('in-collection-2d', Scenario(hub=True, collection=True, dup_label=False, shape=(2, 2)), 5),
-            ('hub-2d', Scenario(hub=True, shape=(2, 2)), 5), ('nohub-2d', Scenario(hub=False, shape=(2, 2)), 5),
+            ('in-collection', Scenario(hub=True, collection=True), 4),
+            ('in-collection-2d', Scenario(hub=True, collection=True, dup_label=False, shape=(2, 2)), 4),
+            ('hub-2d', Scenario(hub=True, shape=(2, 2)), 5), ('nohub-2d', Scenario(hub=False, shape=(2, 2)), 4),
             ('hub-3d-coords', Scenario(hub=True, dup_label=False, refresh=('same', 'newcomps'), shape=(2, 1, 2)), 5)]
 
 
